@@ -104,6 +104,8 @@ pub struct Frame {
     /// the frame is a replay of an earlier scope (C03): base-allocator traffic must be zero
     pub replay_alloc_mark: Option<u64>,
     pub refused_at_entry: u64,
+    /// `by_value()` frame: its allocations only live as long as the reborrow, i.e. they are dead when the frame ends
+    pub by_value: bool,
 }
 
 /// What the generic frame loop has to do next.
@@ -183,6 +185,11 @@ pub struct Interp<'t> {
     pub verbose: bool,
     /// calls into the arena that returned an error or unwound so far
     pub failed_calls: u64,
+    /// known finding F8: inside a `by_value()` copy the minimum alignment was lowered and the copy moved on to
+    /// another chunk, leaving an unaligned position behind in the chunk the original handle resumes on
+    pub kf_byvalue_lowered_switch: bool,
+    /// set once a known finding was observed: the rest of the run is tainted and is not executed
+    pub abort_run: bool,
 }
 
 pub use sim::pattern::{fill, first_mismatch, pat};
@@ -214,6 +221,8 @@ impl<'t> Interp<'t> {
             last_dealloc_mark: 0,
             never_needed_memory: false,
             failed_calls: 0,
+            kf_byvalue_lowered_switch: false,
+            abort_run: false,
             verbose: std::env::var_os("SIM_VERBOSE").is_some(),
         }
     }
@@ -253,7 +262,7 @@ impl<'t> Interp<'t> {
                     return Step::Exit;
                 }
             }
-            if self.pc >= self.trace.ops.len() {
+            if self.pc >= self.trace.ops.len() || self.abort_run {
                 return Step::Done;
             }
             let idx = self.pc;
@@ -271,12 +280,9 @@ impl<'t> Interp<'t> {
                 K_ALIGNED => return Step::Enter(FrameKind::Aligned, 1 << (op.a[0] % 5)),
                 K_SCOPED_ALIGNED => return Step::Enter(FrameKind::ScopedAligned, 1 << (op.a[0] % 5)),
                 K_WITH_SETTINGS => {
-                    let n = 1usize << (op.a[0] % 5);
-                    let cur = self.frames.last().unwrap().min_align;
-                    if n < cur {
-                        continue; // lowering through a borrow is rejected at compile time
-                    }
-                    return Step::Enter(FrameKind::Settings, n);
+                    // `borrow_mut_with_settings` / `by_value().with_settings()` to minimum alignment 16 (raising through a
+                    // borrow is the only direction the crate accepts; 16 is valid from every starting alignment)
+                    return Step::Enter(FrameKind::Settings, 16 | ((op.a[0] as usize & 1) << 8));
                 }
                 K_CLAIM => {
                     if self.claim_depth >= 2 {
